@@ -31,7 +31,7 @@ REQUIRED = {"files_reread": 500, "atoms_compared": 5000, "interactions_compared"
 
 
 def plan(tier, seed):
-    n = 1200 if tier == "quick" else 30000
+    n = 2500 if tier == "quick" else 30000
     cids = [["gen", i] for i in range(n)]
     cids += [["lib", i] for i in range(len(library_commands()))]
     return cids
